@@ -307,7 +307,12 @@ func checkC19(r *Run) {
 				if n == "wrapErrorWithRetry" {
 					if al, ok := v.(*ssa.Alloc); ok && typeName(al.Type()) == "errorWithRetry" {
 						inner := c.Resolve(c.storedField(al, "errorInterface"))
-						if c.errOrigin(inner) == ssa.Value(call) && c.storedField(al, "retryFn") == ssa.Value(f.Params[1]) {
+						// the handle stored is the function's own retry-handle parameter, wherever it stands
+						var hp ssa.Value
+						if wi, ok := c.wrapInfoOf(f); ok && wi.handle >= 0 && wi.handle < len(f.Params) {
+							hp = f.Params[wi.handle]
+						}
+						if c.errOrigin(inner) == ssa.Value(call) && hp != nil && c.storedField(al, "retryFn") == hp {
 							continue
 						}
 					}
@@ -640,7 +645,7 @@ func (c *Ctx) ruleTimeoutIdentity(rr *RuleRep) {
 	deadlineBased := false
 	for _, ret := range returnsOf(rcF) {
 		v := c.Resolve(c.RetVal(ret, 0))
-		if len(rcF.Params) > 1 && v == ssa.Value(rcF.Params[1]) {
+		if p, _ := ctxParam(rcF); p != nil && v == ssa.Value(p) {
 			continue // the unbounded pass-through (ResponseTimeout == 0), R-C18-2's concern
 		}
 		al, tn := isWrapperAlloc(v)
@@ -725,7 +730,7 @@ func (c *Ctx) ruleTimeoutIdentity(rr *RuleRep) {
 			if isStdCall(&k.Call, "time", "AfterFunc") {
 				arg = k.Call.Args[0]
 			}
-			if _, isRT := isFieldLoad(c.Resolve(arg), "RetryClient", "ResponseTimeout"); !isRT {
+			if !c.isResponseTimeout(f, arg) {
 				return
 			}
 			n++
